@@ -693,7 +693,9 @@ def constant_table_suite(chk, w, rule, nmax=8, ns=None, fixed=True):
     frat = w.free("bspline::internal::facultyRatio", lambda f: f.decl["rtype"] == T, required=False)
     fbin = w.free("bspline::internal::binomialCoefficient", lambda f: f.decl["rtype"] == T, required=False)
     if ffac is None and frat is None and fbin is None:
-        raise AnalysisBroken("anchor vanished: none of faculty / facultyRatio / binomialCoefficient is instantiated")
+        # no operator uses the integer -> scalar helpers any more (e.g. factorial factors built by repeated
+        # multiplication): nothing to decide here; the operators' values are decided by the kernel suites
+        return cs.flush()
 
     def is_const(o, v):
         return o.kind == "val" and isinstance(val(o.v), Sc) and val(o.v).v == v and not val(o.v).deps
